@@ -3,26 +3,34 @@ import verif as V
 
 PROP = "C14"
 SPEC = "Bng.Spec.C14"
-MON = ["early-promotion", "not-cancelled", "role-before-callback", "completed-events", "failback-unhealthy", "stuck"]
+MON = ["early-promotion", "not-cancelled", "role-before-callback", "completed-events", "failback-unhealthy", "stuck",
+       "dual-active", "stranded"]
 COMPS = [
     V.Component("failover", monitors=MON, kind="gotest"),
 ]
 LEVEL = ("Theorems over a Lean small-step model of pkg/ha/failover.go (state, role, timer instances with deadlines and "
-         "generations, in-flight executions split at the unlock points check / grace sleep / callback+commit, the health "
-         "flag, counters) for ALL sequences of partner-down/up reports, clock advances, control-loop ticks, timer "
-         "deliveries (late and stale ones included), callback outcomes and operator commands: all six clauses hold at "
-         "full strength on the repaired code (D44, D45 and the failback-grace defect fixed). The model is tied to the "
-         "real FailoverController by differential execution inside testing/synctest bubbles (virtual time, the real "
-         "time.AfterFunc timers, control loop and grace sleeps); the monitor judges the real controller's role, state, "
-         "counters and time-stamped event stream.")
+         "generations, in-flight executions split at every unlock point: entry check / grace sleep / re-validation and "
+         "callback invocation / callback running without the lock / commit, the health flag, counters) for ALL sequences "
+         "of partner-down/up reports, clock advances, control-loop ticks, timer deliveries (late and stale ones included), "
+         "callback outcomes and durations, and operator commands: sustained-down at entry, partner still down when the "
+         "callback is invoked, recovery cancels, role only after a successful callback, one completed event per "
+         "promotion, failback callback only while healthy, never stuck in in_progress, and the two compensation "
+         "invariants (no silent dual-active, no stranded standby) hold at full strength on the repaired code. The model "
+         "is tied to the real FailoverController by differential execution inside testing/synctest bubbles (virtual "
+         "time, the real time.AfterFunc timers, control loop, grace sleeps and slow callbacks); the monitor judges the "
+         "real controller's role, state, counters and time-stamped event stream.")
 ASSUME = [
-    "each critical section of failover.go is one atomic step; the role-change callback is instantaneous (callback and "
-    "commit are one step)",
+    "each critical section of failover.go is one atomic step; the role-change callback runs without the lock for an "
+    "arbitrary time (check and commit are separate steps); evaluateState is atomic (it re-checks under the lock)",
+    "every change of the monitor's Healthy flag is delivered to the controller as partner_down / partner_up, in order "
+    "(health_monitor.go serialises flag changes with their events since bd43000 and SetPartner announces its reset); "
+    "events contradicting the flag (raw re-deliveries) are outside the model and are not generated",
     "a stale time.AfterFunc callback (fired, then blocked on the mutex while its timer was stopped) is reproduced by "
-    "stopping the virtual clock 1 ns before the deadline and invoking the timer's function through a verif hook; the "
-    "real goroutine race itself is not scheduled",
-    "health events are the monitor's transitions only (partner_down / partner_up alternate), injected through "
-    "SetPartnerHealthyForVerif; the HTTP health probe and its thresholds are not exercised",
+    "stopping the virtual clock 1 ns before the deadline and invoking the timer's function through a verif hook "
+    "(raceup/stale for the failover timer, racedown/stale-fb for the failback timer on a tick instant); the real "
+    "goroutine race itself is not scheduled",
+    "the HTTP health probe and its thresholds are not exercised (health transitions are injected through "
+    "SetPartnerHealthyForVerif / the real SetPartner)",
     "the goroutine started by ForceFailover enters executeFailover before anything else happens (nothing can "
     "interleave observably: every other entry point ignores or refuses while the state is in_progress)",
 ]
